@@ -280,8 +280,11 @@ class Ctx:
         ev = dict(property_id=self.pid, tier=self.tier, seed=self.seed, level=level, coverage=cov,
                   assumptions=self.assumptions, wall_s=round(time.time() - self.t0, 2),
                   violations=len(self.violations))
-        os.makedirs(os.path.join(ROOT, "evidence"), exist_ok=True)
-        with open(os.path.join(ROOT, "evidence", self.pid + ".json"), "w") as f:
+        # runs against another tree than /repo (VERIF_REPO: seeded / property-preserving changes in a
+        # scratch worktree) keep their evidence apart; evidence/<id>.json describes /repo only
+        evdir = os.path.join(ROOT, "evidence") if REPO == "/repo" else os.path.join(ROOT, "evidence", "alt")
+        os.makedirs(evdir, exist_ok=True)
+        with open(os.path.join(evdir, self.pid + ".json"), "w") as f:
             json.dump(ev, f, indent=1, default=str)
         for d in self.drift[:20]:
             print("DRIFT property=%s %s" % (self.pid, d))
